@@ -49,17 +49,20 @@ class Hexital:
         if candlestick_type:
             self.candlestick_type = validate_candlesticktype(candlestick_type)
 
+        # The base candles are trimmed to the lifespan only after the other timeframes have been
+        # seeded from them, so that their oldest bucket is built from all of its candles
         self._candles = {
             DEFAULT_CANDLES: CandleManager(
                 candles if isinstance(candles, list) else [],
-                candles_lifespan=self.candles_lifespan,
                 timeframe=self.timeframe,
                 timeframe_fill=self.timeframe_fill,
                 candlestick_type=self.candlestick_type,
             )
         }
+        self._candles[DEFAULT_CANDLES].candles_lifespan = self.candles_lifespan
 
         self._indicators = self._validate_indicators(indicators) if indicators else {}
+        self._candles[DEFAULT_CANDLES].trim_candles()
 
     def _validate_indicators(self, indicators: List[dict | Indicator]) -> Dict[str, Indicator]:
         if not indicators:
